@@ -1,19 +1,30 @@
 """C03 - parameters are identified by name everywhere."""
-CONTRACT_MODULES = ['c03_idmanager', 'c03_byname']
+CONTRACT_MODULES = ['c03_idmanager', 'c03_byname', 'c03c_positions', 'c03c_prepare', 'c03c_values']
 LEVEL = 'other'
 TRUSTED = ['pyvc (VC generator, Python semantics of the stated subset)', 'z3 5.1.0 / cvc5 1.0.3',
            'LIBSPEC sorted(): ordered permutation of its argument', 'ENGINE-SPEC: a Beta line is read as (unique index, parameter index, status)']
 ASSUMPTIONS = ['A-STR-ATOM: names are compared by == and < only']
 EXPLANATION = ('Numbering by sorted name (expressions_names_indices, for all dictionaries), index selection by name and status, by-name overrides, '
                'dictionary-to-list conversion and bounds lookup are proved for all inputs; IdManager.prepare and the end-to-end renaming '
-               'invariance are covered by a bounded differential stand-in on the real code.')
-LEVEL_TEXT = 'Deductive proof of the by-name plumbing functions; IdManager.prepare as a whole and estimation under renaming are bounded stand-ins.'
-LEVEL_NOTE = 'Trusted: pyvc, z3/cvc5, LIBSPEC (sorted, dict order), ENGINE-SPEC for the reading of Beta lines.'
+               'invariance are covered by a bounded differential stand-in on the real code. '
+               'Round 2 (c03c): IdManager.prepare is now proved as a whole (numbering by sorted name, bijective index maps that follow the name order, '
+               'bounds / start values by name, blocks of the unique index, a name used twice refused), as are BIOGEME.change_init_values and '
+               '_load_saved_iteration (position q receives the value given for names[q], nothing else changes), RawResults.__init__ and '
+               'bioResults.get_beta_values (estimate, name and bounds paired by name), the dictionary of values of get_value_and_derivatives, and the '
+               'hand-over of the vectors between these functions (static obligations on the AST).')
+LEVEL_TEXT = ('Deductive proof of the by-name plumbing functions; IdManager.prepare as a whole and estimation under renaming are bounded stand-ins. '
+              'Round 2: prepare, change_init_values, the iteration-file restart, the results pairing and the value dictionary are deductive as well; '
+              'the estimates (optimiser, engine) under renaming remain bounded.')
+LEVEL_NOTE = ('Trusted: pyvc, z3/cvc5, LIBSPEC (sorted, dict order), ENGINE-SPEC for the reading of Beta lines. '
+              'Round 2 adds: LEMMA card-of-list-set (pigeonhole), LIBSPEC open()/rpartition for the iteration file, assumed abstract contracts of the '
+              'virtual descents (change_init_values, set_id_manager, audit and the placement collectors) listed in the evidence.')
 TECHNIQUE = 'contract-based deductive verification (AST -> VCs -> z3/cvc5) + bounded renaming differential'
 DESIGN_REF = 'DESIGN.md section 3 / C03'
 
 
 def extra(tier, seed):
     from pyvc.bounded import run_native
-    return [run_native('C03:bounded:renaming', 'c03_renaming.py', [tier, str(seed)],
+    import contracts.c03c_prepare as c03c_prepare
+    import contracts.c03c_static as c03c_static
+    return c03c_prepare.lemmas() + c03c_static.obligations() + [run_native('C03:bounded:renaming', 'c03_renaming.py', [tier, str(seed)],
                        bound='see the harness bound string: 6 (20) logit specifications x 5-7 namings with shuffled terms, partial dictionaries, duplicate kinds', timeout=1500)]
